@@ -1,7 +1,9 @@
 #!/usr/bin/env python3
-"""Apply a seeded change to /repo, run the property's quick check, undo.  usage: try_seeded.py C05-A [C05-B ...]"""
+"""Apply a seeded change to /repo, run the property's quick check, undo.
+usage: try_seeded.py [--record] C05-A [C05-B ...]   (--record writes detected_by into seeded/<id>/meta.json)"""
 import json, os, subprocess, sys
-for name in sys.argv[1:]:
+RECORD = '--record' in sys.argv
+for name in [a for a in sys.argv[1:] if not a.startswith('--')]:
     d = '/verif/seeded/' + name
     prop = json.load(open(d + '/meta.json'))['property']
     st = subprocess.run(['git', '-C', '/repo', 'status', '--porcelain', '--untracked-files=no'], stdout=subprocess.PIPE, text=True).stdout
@@ -24,6 +26,17 @@ for name in sys.argv[1:]:
         for l in lines:
             if l.startswith(('UNDECIDED', 'CHECKER-FAULT', prop + ':')):
                 print('    ' + l[:230])
+        if RECORD:
+            m = json.load(open(d + '/meta.json'))
+            names = []
+            for l in vio:
+                r = l.split('replay=')[1].split()[0]
+                names.append(os.path.basename(r)[:-5] + (' (no-failing-input-found)' if l.rstrip().endswith('no-failing-input-found') else ''))
+            head = subprocess.run(['git', '-C', '/repo', 'rev-parse', '--short', 'HEAD'], stdout=subprocess.PIPE, text=True).stdout.strip()
+            m['detected_by'] = {'check': './check %s (quick)' % prop, 'exit': p.returncode, 'on_commit': head,
+                                'proof_obligations': [n for n in names if not n.startswith('twin_')],
+                                'twin_clauses': [n for n in names if n.startswith('twin_')]} if vio else None
+            json.dump(m, open(d + '/meta.json', 'w'), indent=1)
     finally:
         subprocess.run(['git', '-C', '/repo', 'checkout', 'HEAD', '--', '.'])
         if saved is not None:
